@@ -656,6 +656,18 @@ class NumberOrderedForm(Operator):
             # Convert base to NumberOrderedForm
             base_nof = NumberOrderedForm.from_expr(base, operators=operators)
 
+            # An exponent that contains number operators is a function of them, like
+            # the argument of `exp`: it must enter through the placeholders, so that it
+            # is shifted when operators are commuted through it.
+            if not exp.is_commutative:
+                exp_nof = NumberOrderedForm.from_expr(exp, operators=operators)
+                if not exp_nof.is_particle_conserving():
+                    raise ValueError(
+                        "Cannot raise to a power with unmatched creation or annihilation "
+                        f"operators: {exp_nof}"
+                    )
+                exp = next(iter(exp_nof.terms.values()), Zero)
+
             # Use the __pow__ method to handle the exponentiation
             return base_nof**exp
 
